@@ -841,6 +841,19 @@ def truc_rule_sentinel(ctx, crate):
         if offs or direct:
             where = fmt_span((offs[0][1]['span'] if offs else direct[0][1].get('span')))
             ctx.add(['C13'], 'S-SENTINEL', b.key, 'walks every datum definition (including data that were added and removed before their variant was closed, whose offset is the placeholder usize::MAX) and reads offsets at %s: arithmetic on the placeholder overflows' % where, key='%s|offset' % b.path)
+    # S-RAW: the generator goes through the variants, never through the raw collection (a withdrawn
+    # datum is a field of no variant: its type need not even be nameable where the module is compiled)
+    if not any(p in crate.fns for p in RAW):
+        ctx.add(['C13'], 'S-RAW', None, 'neither DatumDefinitionCollection::iter nor RecordDefinition::datum_definitions exists any more (anchor lost: fail closed)', key='anchor')
+    ngen = 0
+    for b in crate.bodies:
+        if not (b.module or '').startswith('truc::generator'):
+            continue
+        ngen += 1
+        for bb, t in b.calls():
+            if callee_path(t) in RAW:
+                ctx.add(['C13', 'C11'], 'S-RAW', b.key, 'the generator walks every datum definition at %s, including data withdrawn before their variant was closed: their type names / sizes end up in the generated module although they are fields of no variant' % fmt_span(t['span']), key='%s|raw' % b.path)
+    ctx.inst('S-RAW', 'no raw datum-collection walk in %d bodies of truc::generator' % ngen)
     ctx.floor(['C13'], 'S-SENTINEL', 1)
 
 
@@ -1025,18 +1038,46 @@ def truc_rule_builder(ctx, crate):
                         ctx.add(['C12'], 'B-GUARD-RM', b.key, 'an id can be pushed to data_to_remove although it is already there (removing a datum twice is accepted)', key='twice')
                     else:
                         ctx.inst('B-GUARD-RM', 'data_to_remove.push only on the !contains edge bb%d->bb%d' % (guard[0], guard[1]))
-                # and by "present in the last variant"
+                # and by "present in the last variant": a test (position().is_some(), any(), contains(),
+                # find().is_some()) over the data of `self.variants.last()`
+                def over_last_variant_data(op, depth=0):
+                    x = trace_value(b, defs, op)[-1]
+                    if depth > 8:
+                        return False
+                    if x[0] == 'ref':
+                        names = [e.get('name') for e in x[2]['p'] if isinstance(e, dict) and 'name' in e]
+                        if 'data' in names and any(isinstance(e, dict) and e.get('adt') == T + 'RecordVariant' for e in x[2]['p']):
+                            return True
+                        if not x[2]['p']:
+                            return over_last_variant_data({'copy': x[2]}, depth + 1)
+                        return False
+                    if x[0] == 'call' and x[1]['args']:
+                        return over_last_variant_data(x[1]['args'][0], depth + 1)
+                    return False
                 g2 = None
                 for sb in range(len(b.blocks)):
                     si = switch_info(b, defs, sb)
-                    if si and si[0] == 'val' and si[1][0] == 'call' and callee_path(si[1][1]) == 'core::option::Option::<T>::is_some':
-                        inner = trace_value(b, defs, si[1][1]['args'][0])[-1]
-                        if inner[0] == 'ref':
-                            inner = trace_value(b, defs, {'copy': {'l': inner[2]['l'], 'p': [], 'ty': None}})[-1]
-                        if inner[0] == 'call' and (callee_path(inner[1]) or '').endswith('::position'):
-                            g2 = (sb, edge_for(b, sb, not si[2]))
+                    if not si or si[0] != 'val' or si[1][0] != 'call':
+                        continue
+                    call = si[1][1]
+                    cp = callee_path(call) or ''
+                    inner = None
+                    if cp in ('core::option::Option::<T>::is_some', 'core::option::Option::<T>::is_none'):
+                        i0 = trace_value(b, defs, call['args'][0])[-1]
+                        if i0[0] == 'ref':
+                            i0 = trace_value(b, defs, {'copy': {'l': i0[2]['l'], 'p': [], 'ty': None}})[-1]
+                        if i0[0] == 'call' and ((callee_path(i0[1]) or '').endswith('::position') or (callee_path(i0[1]) or '').endswith('::find')):
+                            inner = i0[1]
+                        positive = cp.endswith('is_some')
+                    elif cp.endswith('::any') or cp.endswith('::contains'):
+                        inner = call
+                        positive = True
+                    if inner is None or not over_last_variant_data(inner['args'][0]):
+                        continue
+                    present_truth = positive != si[2]
+                    g2 = (sb, edge_for(b, sb, present_truth))
                 if g2 is None:
-                    ctx.add(['C12'], 'B-GUARD-RM', b.key, 'data_to_remove.push is not guarded by the lookup of the id in the last variant', key='present')
+                    ctx.add(['C12'], 'B-GUARD-RM', b.key, 'data_to_remove.push is not guarded by a lookup of the id in the last variant', key='present')
                 else:
                     reach = b.reachable(0, unwind=False, removed_edges=[g2])
                     if bb in reach:
@@ -1558,60 +1599,70 @@ def truc_rule_once(ctx, crate):
     for b in strategies:
         defs = local_defs(b)
         taint = taint_ids(b, {1: {'OLD'}, 2: {'ADD'}, 3: {'REMOVE'}})
-        # loop heads over ADD ids: `next` calls whose iterator carries ADD only
-        heads = []
-        for bb, t in b.calls():
-            p = callee_path(t) or ''
-            if p.endswith('Iterator>::next') or p.endswith('::next'):
-                a = op_place(t['args'][0])
-                lab = taint[a['l']] if a else set()
-                dty = t['dest'].get('ty') or ''
-                if 'ADD' in lab and 'OLD' not in lab and 'DatumId' in dty:
-                    heads.append((bb, t))
-        # the outermost ADD loop that yields ids (simple() has a first loop that only groups ids by size)
         def insertion_blocks():
             out = []
             for bb, t in b.calls():
                 p = callee_path(t) or ''
+                idop = None
                 if p in ('alloc::vec::Vec::<T, A>::push', 'alloc::vec::Vec::<T, A>::insert'):
                     r = trace_value(b, defs, t['args'][0])[-1]
                     if r[0] == 'ref' and not r[2]['p'] and r[2]['l'] == 1:
-                        out.append(bb)
+                        idop = t['args'][-1]
                 elif p.endswith('NativeDataUpdater>::push_datum'):
-                    out.append(bb)
+                    idop = t['args'][2]
+                if idop is not None:
+                    out.append((bb, idop, t))
             return out
-        ins_blocks = insertion_blocks()
+        ins = insertion_blocks()
+        ins_blocks = [x[0] for x in ins]
+        for bb, idop, t in ins:
+            lab = taint[op_place(idop)['l']] if op_place(idop) else set()
+            if 'ADD' not in lab or 'OLD' in lab or 'REMOVE' in lab:
+                ctx.add(['C12'], 'B-ONCE', b.key, 'an id of provenance %s is inserted into the variant\'s list at %s (only ids being added may be inserted)' % (sorted(lab), fmt_span(t['span'])), key='%s|what' % b.path.split('::')[-1])
+        # the outermost loop (strongly connected component of the normal-edge CFG) that contains insertions
+        succ = {i: [s for s in b.successors(i, unwind=False)] for i in range(len(b.blocks))}
+        def can_reach(a, c, removed=()):
+            return c in b.reachable(a, unwind=False, removed_blocks=list(removed)) if a not in removed else False
         decided = False
-        for hb, ht in heads:
-            some = None
-            nxt = ht['t']
-            sw = b.blocks[nxt]['term'] if nxt is not None else None
-            if sw and sw['k'] == 'switch':
-                some = dict(sw['targets']).get(1)
-            if some is None:
-                continue
-            body_reach = b.reachable(some, unwind=False, removed_blocks=[hb])
-            mine = [x for x in ins_blocks if x in body_reach]
-            if not mine:
-                continue        # a loop over the added ids that does not build the list (grouping pass)
-            decided = True
-            # at least one insertion on every way back to the head
-            back = b.reachable(some, unwind=False, removed_blocks=mine)
-            if hb in back:
-                ctx.add(['C12'], 'B-ONCE', b.key, 'an added datum can go through an iteration of the placement loop without being inserted into the variant\'s list (it would silently be missing from the variant)', key='%s|skipped' % b.path.split('::')[-1])
-            # at most one
-            twice = False
-            for x in mine:
-                s_ = b.blocks[x]['term']['t']
-                if s_ is None:
-                    continue
-                r = b.reachable(s_, unwind=False, removed_blocks=[hb])
-                if any(y in r for y in mine):
-                    twice = True
-            if twice:
-                ctx.add(['C12'], 'B-ONCE', b.key, 'an added datum can be inserted twice into the variant\'s list in one iteration', key='%s|twice' % b.path.split('::')[-1])
-            if hb not in back and not twice:
-                ctx.inst('B-ONCE', '%s: exactly one list insertion per added id (insertion sites bb%s)' % (b.path.split('::')[-1], mine))
+        if ins_blocks:
+            x0 = ins_blocks[0]
+            scc = {y for y in b.reachable(x0, unwind=False) if x0 in b.reachable(y, unwind=False)} | {x0}
+            if len(scc) > 1 or x0 in succ[x0]:
+                # grow to the outermost loop containing it
+                changed = True
+                while changed:
+                    changed = False
+                    for y in range(len(b.blocks)):
+                        if y not in scc and any(s in scc for s in succ[y]) and any(y in b.reachable(z, unwind=False) for z in scc):
+                            # y is on a cycle with the component
+                            if any(z in b.reachable(y, unwind=False) for z in scc) and y in set().union(*[b.reachable(z, unwind=False) for z in list(scc)[:1]]):
+                                scc.add(y)
+                                changed = True
+                dom = b.dominators(unwind=False)
+                heads_ = [h for h in scc if all(h in dom.get(y, set()) for y in scc)]
+                if heads_:
+                    hb = heads_[0]
+                    mine = [x for x in ins_blocks if x in scc]
+                    decided = True
+                    # every cycle through the head passes an insertion
+                    cyc = False
+                    for s_ in succ[hb]:
+                        if s_ in scc and s_ not in mine and hb in b.reachable(s_, unwind=False, removed_blocks=mine):
+                            cyc = True
+                    if cyc:
+                        ctx.add(['C12'], 'B-ONCE', b.key, 'an added datum can go through an iteration of the placement loop without being inserted into the variant\'s list (it would silently be missing from the variant)', key='%s|skipped' % b.path.split('::')[-1])
+                    twice = False
+                    for x in mine:
+                        s_ = b.blocks[x]['term']['t']
+                        if s_ is None:
+                            continue
+                        r = b.reachable(s_, unwind=False, removed_blocks=[hb])
+                        if any(y in r for y in mine):
+                            twice = True
+                    if twice:
+                        ctx.add(['C12'], 'B-ONCE', b.key, 'an added datum can be inserted twice into the variant\'s list in one iteration', key='%s|twice' % b.path.split('::')[-1])
+                    if not cyc and not twice:
+                        ctx.inst('B-ONCE', '%s: exactly one list insertion per iteration of the placement loop (head bb%d, insertion sites bb%s)' % (b.path.split('::')[-1], hb, mine))
         if not decided:
             ctx.add(['C12'], 'B-ONCE', b.key, 'cannot find the loop that inserts the added ids into the list (unanalysable: fail closed)', key='%s|shape' % b.path.split('::')[-1])
         # removals: the list is filtered with data_to_remove (retain / remove_data)
